@@ -28,7 +28,7 @@ def gates(tier):
     return {'cheats_twin_credited': 2500, 'cheats_refused': 2500, 'honest_controls': 400,
             'restriction:blacklist': 100, 'restriction:blacklist:user_override': 15, 'restriction:whitelist': 150, 'restriction:whitelist_none': 100,
             'restriction:required': 100, 'restriction:forbidden': 150, 'restriction:instructor_var': 150,
-            'restriction:numbered': 100, 'restriction:removed_constant': 60, 'restriction:registered_defaults': 40, 'restriction:suffix': 80, 'restriction:name': 150,
+            'restriction:numbered': 100, 'restriction:removed_constant': 60, 'restriction:registered_defaults': 40, 'sibling_mixed_list_cases': 150, 'restriction:suffix': 80, 'restriction:name': 150,
             'restriction:sibling': 60, 'restriction:sibling_via_sampler': 60, 'aborted_parse_before_cheat': 30, 'restriction:sum_blacklist': 80, 'partial_credit_cheats': 200, 'restriction_combinations': 400, 'restricted_grader_as_subgrader': 300, 'resubmissions': 2000}
 
 
@@ -474,6 +474,53 @@ def run_siblings3(ctx):
             ctx.count('cheats_refused')
 
 
+def run_siblings_mixed(ctx):
+    """Sibling variables in ordered lists whose boxes are of different kinds: sibling_j is the j-th input box, so the honest answer is
+    credited, constants that would match another box's own entry are not, and the student still cannot name a sibling."""
+    from mitxgraders import FormulaGrader, ListGrader, StringGrader, NumericalGrader
+    rng = ctx.rng
+    F = lambda: FormulaGrader(variables=['x'])
+    layouts = [
+        (['cat', 'x+1', 'sibling_2^2'], lambda: [StringGrader(), F(), F()], ['cat', 'x+1', '(x+1)^2'], 2, ['1', '0', 'x+1']),
+        (['cat', 'dog', 'x+1', 'sibling_3*2'], lambda: [StringGrader(), StringGrader(), F(), F()], ['cat', 'dog', 'x+1', '2*(x+1)'], 3, ['0', '2', '2*x']),
+        (['x+1', 'cat', 'sibling_1+x'], lambda: [F(), StringGrader(), F()], ['x+1', 'cat', '2*x+1'], 2, ['x', '0', 'x+1']),
+        (['3', 'cat', 'sibling_1+1'], lambda: [NumericalGrader(), StringGrader(), NumericalGrader()], ['3', 'cat', '4'], 2, ['1', '0', '3']),
+    ]
+    for i in range(ctx.n(80, 2000)):
+        answers, mk, honest, box, wrongs = rng.choice(layouts)
+        g = ListGrader(answers=list(answers), subgraders=mk(), ordered=True)
+        wit = {'answers': answers, 'subgrader_kinds': [type(x_).__name__ for x_ in g.config['subgraders']]}
+        o = lib.call(ctx, g, None, list(honest))
+        ctx.ev()
+        ctx.count('honest_controls')
+        if not o.returned or not all(e['ok'] is True for e in o.value['input_list']):
+            ctx.violation('C09:sibling:mixed_list:honest_answer_refused', repr(o.brief()), dict(wit, inputs=honest))
+            continue
+        for w_ in wrongs:
+            sub = list(honest)
+            sub[box] = w_
+            o = lib.call(ctx, g, None, sub)
+            ctx.ev()
+            ctx.count('sibling_mixed_list_cases')
+            if not o.returned or o.value['input_list'][box]['grade_decimal'] != 0:
+                ctx.violation('C09:sibling:mixed_list:wrong_entry_credited', 'box %d = %r: %r' % (box + 1, w_, o.brief()), dict(wit, inputs=sub))
+        sib = 'sibling_%d' % rng.choice([k + 1 for k in range(len(answers)) if k != box])
+        cheat = list(honest)
+        cheat[box] = '(%s)+0*%s' % (honest[box], sib)
+        out = lib.call(ctx, g, None, cheat)
+        ctx.ev()
+        ctx.count('restriction:sibling')
+        ctx.count('cheats_twin_credited')
+        ctx.nontrivial(['sibling_mixed', answers, cheat])
+        if out.returned:
+            ctx.violation('C09:sibling:mixed_list:' + ('bypass_credited' if out.value['input_list'][box]['grade_decimal'] > 0 else 'graded_wrong_instead_of_rejected'),
+                          'box %d used %s and was graded' % (box + 1, sib), dict(wit, inputs=cheat, outcome=out.brief()))
+        elif type(out.exc).__name__ not in ('UndefinedVariable', 'ConfigError'):
+            ctx.violation('C09:sibling:mixed_list:wrong_error_class', repr(out.exc)[:200], dict(wit, inputs=cheat))
+        else:
+            ctx.count('cheats_refused')
+
+
 def run_sum(ctx):
     from mitxgraders import SumGrader
     rng = ctx.rng
@@ -578,6 +625,7 @@ def run(ctx):
     run_sibling_sampler(ctx)
     run_siblings3(ctx)
     run_sum(ctx)
+    run_siblings_mixed(ctx)
     if ctx.shard % 4 == 3:
         run_registered_restrictions(ctx)
     if ctx.shard == 0:
